@@ -212,8 +212,6 @@ fn strip_rcpt(r: &mut CoseRecipient) {
     }
 }
 
-const AAD: &[u8] = b"external-aad";
-const DET: &[u8] = b"detached-payload";
 
 fn catch<F: FnOnce() -> R + std::panic::UnwindSafe, R>(f: F) -> Option<R> {
     std::panic::catch_unwind(f).ok()
@@ -222,6 +220,11 @@ fn catch<F: FnOnce() -> R + std::panic::UnwindSafe, R>(f: F) -> Option<R> {
 fn structures(p: &[&str]) -> String {
     let built = p[1] == "built";
     let data = unhex(p[2]);
+    // optional: lengths of the external aadv and of the detached payload (filled with a constant byte)
+    let aad_buf: Vec<u8> = if p.len() > 3 { vec![0xa5; p[3].parse().unwrap()] } else { b"external-aad".to_vec() };
+    let det_buf: Vec<u8> = if p.len() > 4 { vec![0x5a; p[4].parse().unwrap()] } else { b"detached-payload".to_vec() };
+    let aadv: &[u8] = &aad_buf;
+    let detv: &[u8] = &det_buf;
     let mut bad: Vec<String> = vec![];
     macro_rules! check {
         ($what:expr, $got:expr, $want:expr) => {
@@ -236,18 +239,18 @@ fn structures(p: &[&str]) -> String {
             if built { strip_prot(&mut x.protected); strip_header(&mut x.unprotected); }
             let pb = prot_bytes(&x.protected);
             let emb = x.payload.clone().unwrap_or_default();
-            let want = reference("Signature1", &[pb.clone()], &[AAD, &emb]);
-            check!("tbs_data", x.tbs_data(AAD), want);
+            let want = reference("Signature1", &[pb.clone()], &[aadv, &emb]);
+            check!("tbs_data", x.tbs_data(aadv), want);
             let mut seen = (vec![], vec![]);
-            let _ = x.verify_signature(AAD, |s, d| -> Result<(), ()> { seen = (s.to_vec(), d.to_vec()); Ok(()) });
+            let _ = x.verify_signature(aadv, |s, d| -> Result<(), ()> { seen = (s.to_vec(), d.to_vec()); Ok(()) });
             check!("verify_signature.data", seen.1, want);
             check!("verify_signature.sig", seen.0, x.signature);
             let y = x.clone();
-            let r = catch(move || y.tbs_detached_data(DET, AAD));
+            let r = catch(move || y.tbs_detached_data(detv, aadv));
             if x.payload.is_some() {
                 if r.is_some() { bad.push("tbs_detached_data accepted embedded payload".into()); }
             } else {
-                let wantd = reference("Signature1", &[pb], &[AAD, DET]);
+                let wantd = reference("Signature1", &[pb], &[aadv, detv]);
                 match r { Some(g) => check!("tbs_detached_data", g, wantd), None => bad.push("tbs_detached_data panicked".into()) }
             }
         }
@@ -257,20 +260,20 @@ fn structures(p: &[&str]) -> String {
             let pb = prot_bytes(&x.protected);
             let emb = x.payload.clone().unwrap_or_default();
             for (i, s) in x.signatures.iter().enumerate() {
-                let want = reference("Signature", &[pb.clone(), prot_bytes(&s.protected)], &[AAD, &emb]);
-                check!(format!("tbs_data[{}]", i), x.tbs_data(AAD, s), want);
+                let want = reference("Signature", &[pb.clone(), prot_bytes(&s.protected)], &[aadv, &emb]);
+                check!(format!("tbs_data[{}]", i), x.tbs_data(aadv, s), want);
                 let mut seen = (vec![], vec![]);
-                let _ = x.verify_signature(i, AAD, |sg, d| -> Result<(), ()> { seen = (sg.to_vec(), d.to_vec()); Ok(()) });
+                let _ = x.verify_signature(i, aadv, |sg, d| -> Result<(), ()> { seen = (sg.to_vec(), d.to_vec()); Ok(()) });
                 check!(format!("verify_signature[{}].data", i), seen.1, want);
                 check!(format!("verify_signature[{}].sig", i), seen.0, s.signature);
                 if x.payload.is_none() {
-                    let wantd = reference("Signature", &[pb.clone(), prot_bytes(&s.protected)], &[AAD, DET]);
-                    check!(format!("tbs_detached_data[{}]", i), x.tbs_detached_data(DET, AAD, s), wantd);
+                    let wantd = reference("Signature", &[pb.clone(), prot_bytes(&s.protected)], &[aadv, detv]);
+                    check!(format!("tbs_detached_data[{}]", i), x.tbs_detached_data(detv, aadv, s), wantd);
                 }
             }
             let y = x.clone();
             let n = x.signatures.len();
-            if catch(move || y.verify_signature(n, AAD, |_, _| -> Result<(), ()> { Ok(()) })).is_some() {
+            if catch(move || y.verify_signature(n, aadv, |_, _| -> Result<(), ()> { Ok(()) })).is_some() {
                 bad.push("verify_signature(len) did not panic".into());
             }
         }
@@ -283,21 +286,21 @@ fn structures(p: &[&str]) -> String {
                 if built { strip_prot(&mut x.protected); }
                 prot = x.protected.clone(); payload = x.payload.clone(); tag = x.tag.clone(); ctxs = "MAC0";
                 let mut s2 = (vec![], vec![]);
-                called = catch(std::panic::AssertUnwindSafe(|| { let _ = x.verify_tag(AAD, |t, d| -> Result<(), ()> { s2 = (t.to_vec(), d.to_vec()); Ok(()) }); }));
+                called = catch(std::panic::AssertUnwindSafe(|| { let _ = x.verify_tag(aadv, |t, d| -> Result<(), ()> { s2 = (t.to_vec(), d.to_vec()); Ok(()) }); }));
                 seen = s2;
             } else {
                 let mut x = match CoseMac::from_slice(&data) { Ok(x) => x, Err(_) => return "REJECTED".into() };
                 if built { strip_prot(&mut x.protected); }
                 prot = x.protected.clone(); payload = x.payload.clone(); tag = x.tag.clone(); ctxs = "MAC";
                 let mut s2 = (vec![], vec![]);
-                called = catch(std::panic::AssertUnwindSafe(|| { let _ = x.verify_tag(AAD, |t, d| -> Result<(), ()> { s2 = (t.to_vec(), d.to_vec()); Ok(()) }); }));
+                called = catch(std::panic::AssertUnwindSafe(|| { let _ = x.verify_tag(aadv, |t, d| -> Result<(), ()> { s2 = (t.to_vec(), d.to_vec()); Ok(()) }); }));
                 seen = s2;
             }
             match payload {
                 None => if called.is_some() { bad.push("verify_tag without payload did not panic".into()); },
                 Some(pl) => {
                     if called.is_none() { bad.push("verify_tag panicked".into()); }
-                    let want = reference(ctxs, &[prot_bytes(&prot)], &[AAD, &pl]);
+                    let want = reference(ctxs, &[prot_bytes(&prot)], &[aadv, &pl]);
                     check!("verify_tag.data", seen.1, want);
                     check!("verify_tag.tag", seen.0, tag);
                 }
@@ -312,11 +315,11 @@ fn structures(p: &[&str]) -> String {
                 if built { strip_rcpt(&mut x); }
                 for (i, (name, c)) in names.iter().enumerate() {
                     let mut seen = (vec![], vec![]);
-                    let r = catch(std::panic::AssertUnwindSafe(|| { let _ = x.decrypt(*c, AAD, |ct, d| -> Result<Vec<u8>, ()> { seen = (ct.to_vec(), d.to_vec()); Ok(vec![]) }); }));
+                    let r = catch(std::panic::AssertUnwindSafe(|| { let _ = x.decrypt(*c, aadv, |ct, d| -> Result<Vec<u8>, ()> { seen = (ct.to_vec(), d.to_vec()); Ok(vec![]) }); }));
                     let refuse = x.ciphertext.is_none() || i < 2;
                     if refuse { if r.is_some() { bad.push(format!("decrypt({}) did not refuse", name)); } continue; }
                     if r.is_none() { bad.push(format!("decrypt({}) panicked", name)); continue; }
-                    let want = reference(name, &[prot_bytes(&x.protected)], &[AAD]);
+                    let want = reference(name, &[prot_bytes(&x.protected)], &[aadv]);
                     check!(format!("decrypt({}).aad", name), seen.1, want);
                     check!(format!("decrypt({}).ct", name), seen.0, x.ciphertext.clone().unwrap());
                 }
@@ -329,21 +332,21 @@ fn structures(p: &[&str]) -> String {
                     if built { strip_prot(&mut x.protected); }
                     prot = x.protected.clone(); ct = x.ciphertext.clone(); name = "Encrypt0";
                     let mut s2 = (vec![], vec![]);
-                    r = catch(std::panic::AssertUnwindSafe(|| { let _ = x.decrypt(AAD, |c, d| -> Result<Vec<u8>, ()> { s2 = (c.to_vec(), d.to_vec()); Ok(vec![]) }); }));
+                    r = catch(std::panic::AssertUnwindSafe(|| { let _ = x.decrypt(aadv, |c, d| -> Result<Vec<u8>, ()> { s2 = (c.to_vec(), d.to_vec()); Ok(vec![]) }); }));
                     seen = s2;
                 } else {
                     let mut x = match CoseEncrypt::from_slice(&data) { Ok(x) => x, Err(_) => return "REJECTED".into() };
                     if built { strip_prot(&mut x.protected); }
                     prot = x.protected.clone(); ct = x.ciphertext.clone(); name = "Encrypt";
                     let mut s2 = (vec![], vec![]);
-                    r = catch(std::panic::AssertUnwindSafe(|| { let _ = x.decrypt(AAD, |c, d| -> Result<Vec<u8>, ()> { s2 = (c.to_vec(), d.to_vec()); Ok(vec![]) }); }));
+                    r = catch(std::panic::AssertUnwindSafe(|| { let _ = x.decrypt(aadv, |c, d| -> Result<Vec<u8>, ()> { s2 = (c.to_vec(), d.to_vec()); Ok(vec![]) }); }));
                     seen = s2;
                 }
                 match ct {
                     None => if r.is_some() { bad.push("decrypt without ciphertext did not panic".into()); },
                     Some(c) => {
                         if r.is_none() { bad.push("decrypt panicked".into()); }
-                        let want = reference(name, &[prot_bytes(&prot)], &[AAD]);
+                        let want = reference(name, &[prot_bytes(&prot)], &[aadv]);
                         check!("decrypt.aad", seen.1, want);
                         check!("decrypt.ct", seen.0, c);
                     }
@@ -376,7 +379,10 @@ fn free_structures(p: &[&str]) -> String {
     }
     let ci: usize = p[1].parse().unwrap();
     let body = mk(p[2], 1);
-    let pl: &[u8] = b"payload";
+    let aad_buf: Vec<u8> = if p.len() > 4 { vec![0xa5; p[4].parse().unwrap()] } else { b"external-aad".to_vec() };
+    let pl_buf: Vec<u8> = if p.len() > 5 { vec![0x5a; p[5].parse().unwrap()] } else { b"payload".to_vec() };
+    let aadv: &[u8] = &aad_buf;
+    let pl: &[u8] = &pl_buf;
     let (got, want) = match p[0] {
         "sig" => {
             let ctxs = [("Signature", SignatureContext::CoseSignature), ("Signature1", SignatureContext::CoseSign1),
@@ -384,17 +390,17 @@ fn free_structures(p: &[&str]) -> String {
             let sign = if p.len() > 3 && p[3] != "-" { Some(mk(p[3], 2)) } else { None };
             let mut prots = vec![prot_bytes(&body)];
             if let Some(s) = &sign { prots.push(prot_bytes(s)); }
-            (sig_structure_data(ctxs[ci].1, body.clone(), sign.clone(), AAD, pl), reference(ctxs[ci].0, &prots, &[AAD, pl]))
+            (sig_structure_data(ctxs[ci].1, body.clone(), sign.clone(), aadv, pl), reference(ctxs[ci].0, &prots, &[aadv, pl]))
         }
         "mac" => {
             let ctxs = [("MAC", MacContext::CoseMac), ("MAC0", MacContext::CoseMac0)];
-            (mac_structure_data(ctxs[ci].1, body.clone(), AAD, pl), reference(ctxs[ci].0, &[prot_bytes(&body)], &[AAD, pl]))
+            (mac_structure_data(ctxs[ci].1, body.clone(), aadv, pl), reference(ctxs[ci].0, &[prot_bytes(&body)], &[aadv, pl]))
         }
         _ => {
             let ctxs = [("Encrypt", EncryptionContext::CoseEncrypt), ("Encrypt0", EncryptionContext::CoseEncrypt0),
                         ("Enc_Recipient", EncryptionContext::EncRecipient), ("Mac_Recipient", EncryptionContext::MacRecipient),
                         ("Rec_Recipient", EncryptionContext::RecRecipient)];
-            (enc_structure_data(ctxs[ci].1, body.clone(), AAD), reference(ctxs[ci].0, &[prot_bytes(&body)], &[AAD]))
+            (enc_structure_data(ctxs[ci].1, body.clone(), aadv), reference(ctxs[ci].0, &[prot_bytes(&body)], &[aadv]))
         }
     };
     if got == want { "MATCH".into() } else { format!("MISMATCH got={} want={}", hex::encode(got), hex::encode(want)) }
